@@ -23,6 +23,7 @@ type contractMethod struct {
 	Name     string
 	In       []reflect.Type
 	Response bool // returns exactly one *boltvm.Response
+	Stub     bool // promoted from the embedded boltvm.Stub: the contract's own API towards the VM (Set, Delete, CrossInvoke, ...), never an entry point
 }
 
 var (
@@ -48,11 +49,14 @@ func contractMethods(n *sim.Node) []*contractMethod {
 			}
 			for i := 0; i < ty.NumMethod(); i++ {
 				m := ty.Method(i)
-				// methods promoted from the embedded Stub interface are the contract's own API towards the VM, skip them
-				if _, isStub := reflect.TypeOf((*boltvm.Stub)(nil)).Elem().MethodByName(m.Name); isStub {
-					continue
+				// methods promoted from the embedded Stub interface are the contract's own API towards the VM, but the
+				// dispatcher finds them by name like any other method: they are swept too
+				// (a contract's own entry point of the same name - Store.Set, Store.Get - has another signature)
+				isStub := false
+				if sm, ok := reflect.TypeOf((*boltvm.Stub)(nil)).Elem().MethodByName(m.Name); ok {
+					isStub = v.Method(i).Type() == sm.Type
 				}
-				cm := &contractMethod{Addr: a, Contract: strings.TrimPrefix(ty.String(), "*contracts."), Name: m.Name}
+				cm := &contractMethod{Addr: a, Contract: strings.TrimPrefix(ty.String(), "*contracts."), Name: m.Name, Stub: isStub}
 				for j := 1; j < m.Type.NumIn(); j++ {
 					cm.In = append(cm.In, m.Type.In(j))
 				}
